@@ -35,6 +35,58 @@ def tree_hash():
     return h.hexdigest()[:16]
 
 
+def file_hashes():
+    out = {}
+    root = os.path.join(REPO, "nucs")
+    for dp, dn, fn in os.walk(root):
+        if "__pycache__" in dp:
+            continue
+        for f in fn:
+            if f.endswith(".py"):
+                p = os.path.join(dp, f)
+                with open(p, "rb") as fh:
+                    out[os.path.relpath(p, root)] = hashlib.sha256(fh.read()).hexdigest()[:16]
+    return out
+
+
+_CHANGED = None
+
+
+def changed_files():
+    """files of /repo/nucs that differ from the tree the machinery was last validated on (baseline_tree.json; empty when that file
+    is missing).  A changed file only DEEPENS the search of the checks it concerns (more cases, the complete small scope of the
+    algorithm it implements): a harmless rewrite costs time, never an alarm."""
+    global _CHANGED
+    if _CHANGED is None:
+        try:
+            base = json.load(open(os.path.join(VERIF, "baseline_tree.json")))["files"]
+            cur = file_hashes()
+            _CHANGED = sorted(f for f in set(base) | set(cur) if base.get(f) != cur.get(f))
+        except Exception:  # noqa: BLE001
+            _CHANGED = []
+    return _CHANGED
+
+
+def boost(kind):
+    """multiplier of a quick-tier budget: 1 on the validated tree; VERIF_BOOST (default 4) when a file the check concerns changed.
+    kind: 'engine' (solvers, heuristics, problem, registries), 'examples', 'mp', or 'alg:<name>'"""
+    ch = changed_files()
+    if not ch:
+        return 1
+    k = int(os.environ.get("VERIF_BOOST", "4") or 4)
+    if kind.startswith("alg:"):
+        name = kind[4:]
+        hit = any(f == f"propagators/{name}_propagator.py" for f in ch) or "propagators/propagators.py" in ch or \
+            (name == "gcc" and "propagators/alldifferent_propagator.py" in ch) or "constants.py" in ch or "numpy_helper.py" in ch
+        return k if hit else 1
+    if kind == "examples":
+        return k if any(f.startswith("examples/") or f.startswith("problems/") for f in ch) else 1
+    if kind == "mp":
+        return k if any("multiprocessing" in f or "backtrack_solver" in f or f.startswith("problems/") for f in ch) else 1
+    # engine: anything that is not an example
+    return k if any(not f.startswith("examples/") for f in ch) else 1
+
+
 def setup_env(jit):
     """must be called before nucs / numba are imported"""
     th = tree_hash()
